@@ -119,7 +119,7 @@ def oracle(case, obs):
         return {"truncated": len(obs)}
     h1 = obs[k + 3]
     if c is None:
-        if sv.get("err") != "refused":
+        if "err" not in sv:
             return {"unknown_mode_not_rejected": sv}
         if h1 != h0:
             return {"unknown_mode_touched_the_path": True}
